@@ -122,6 +122,9 @@ func (h *DNSHandler) ProcessDNS(frame packet.Frame) (e packet.DNSEntry, err erro
 
 	h.mutex.Lock()
 	defer h.mutex.Unlock()
+	if h.DNSTable == nil { // Close() was called
+		return packet.DNSEntry{}, packet.ErrHandlerClosed
+	}
 
 	e, found := h.DNSTable[string(question.Name)] // lookup directly from []byte to avoid allocation
 	if !found {
